@@ -201,7 +201,7 @@ func c12r1(c *core.Ctx) {
 				if g == f {
 					return true
 				}
-				if g != nil && (g.Name() == "clampInt" || g.Name() == "clampFloat") {
+				if g != nil && (cn(g) == "clampInt" || cn(g) == "clampFloat") {
 					// clamp argument must itself come from convert
 					return core.AllSources(call.Call.Args[1], func(x ssa.Value) bool {
 						cc, ok := x.(*ssa.Call)
@@ -252,7 +252,7 @@ func c12r2(c *core.Ctx) {
 			if ta, ok := i.(*ssa.TypeAssert); ok && types.Identical(ta.AssertedType, t) {
 				assertOK = true
 			}
-			if g := core.Callee(i); g != nil && strings.HasPrefix(g.Name(), "clamp") && len(g.Params) == 2 && types.Identical(g.Params[1].Type(), t) {
+			if g := core.Callee(i); g != nil && strings.HasPrefix(cn(g), "clamp") && len(g.Params) == 2 && types.Identical(g.Params[1].Type(), t) {
 				clampOK = true
 			}
 		}
@@ -421,7 +421,7 @@ func c12r3(c *core.Ctx) {
 	if g := p.Func("characteristic", "(*Bytes).GetValue"); g != nil {
 		ok := false
 		core.Instrs(g, func(i ssa.Instruction) {
-			if h := core.Callee(i); h != nil && h.Name() == "GetValue" && core.TypeIs(recvType(h), mod+"/characteristic.String") {
+			if h := core.Callee(i); h != nil && cn(h) == "GetValue" && core.TypeIs(recvType(h), mod+"/characteristic.String") {
 				ok = true
 			}
 		})
